@@ -352,7 +352,7 @@ func runBlockTiming(id, kind, tmo, pushAfter string) string {
 func blockMain(args []string) {
 	fs := flag.NewFlagSet("block", flag.ExitOnError)
 	in := fs.String("in", "", "scenario file")
-	settleMs := fs.Int("settle", 400, "milliseconds after which a granted thread that reached no point counts as stuck")
+	settleMs := fs.Int("settle", 2500, "milliseconds after which a granted thread that reached no point counts as stuck")
 	fs.Parse(args)
 	f, err := os.Open(*in)
 	if err != nil {
